@@ -36,7 +36,8 @@ Definition count2 (c : callee) (j : jst2) : nat :=
 
 Inductive out := ORet (v : val) | ORaise (e : exn).
 
-Record fspec := { f_iscoro : bool; f_sig : sigspec; f_outs : list out; f_tail : out }.
+(* f_named: the callable has __name__ / __qualname__ (false: functools.partial(f), an instance with __call__) *)
+Record fspec := { f_iscoro : bool; f_sig : sigspec; f_outs : list out; f_tail : out; f_named : bool }.
 
 Definition xid_of (c : callee) (i : nat) : xid := XId (match c with CFunc => i | COther => 1000 + i end).
 
@@ -58,11 +59,11 @@ Definition run2 (c : callee) (f : fspec) (cids : list nat) : csem jst2 := fun a 
 (* a plain def, or a plain async def: binding at call time, the body when awaited *)
 Definition desc2 (c : callee) (f : fspec) (cids : list nat) : cdesc jst2 :=
   if f_iscoro f then
-    {| c_iscoro := true; c_mode := true;
+    {| c_named := f_named f; c_iscoro := true; c_mode := true;
        c_call := fun a k s => if accepts_sig (f_sig f) a k then (ROk (VPending c a k), s) else (RExc TypeErrorC (XFresh 6), s);
        c_resume := run2 c f cids |}
   else
-    {| c_iscoro := false; c_mode := false; c_call := run2 c f cids; c_resume := fun _ _ s => (RExc TypeErrorC (XFresh 0), s) |}.
+    {| c_named := f_named f; c_iscoro := false; c_mode := false; c_call := run2 c f cids; c_resume := fun _ _ s => (RExc TypeErrorC (XFresh 0), s) |}.
 
 (* ---- values ------------------------------------------------------------------------------------------- *)
 (* `==` of the harness objects: VObj n is a fresh list [n mod 10] *)
@@ -78,16 +79,30 @@ Record lspec := { l_name : dname; l_rv : val; l_rules : list (string * string);
                   l_shape : kw_shape;           (* require_kwargs: what DecoratedFunction sees of the callable this level decorates *)
                   l_dir : bool }.               (* overrides: the name is in dir(base_class) *)
 
-Definition mk_cx (l : lspec) (other : cdesc jst2) (id : nat) : ctx jst2 :=
+(* repr / str of the harness objects: the objects listed in `bad` have a __repr__ that raises (a prepared instance of)
+   the given class; everything else has the builtin one *)
+Definition repr_of (bad : list (nat * exn)) : val -> st jst2 -> res * st jst2 := fun v s =>
+  match v with
+  | VObj n => match find (fun p => Nat.eqb (fst p) n) bad with
+              | Some (_, e) =>
+                (* RecursionError: the object's own __repr__ is a traced method; the interpreter makes a fresh instance *)
+                if prefix e RecursionErrorC && prefix RecursionErrorC e then (RExc e (XFresh 8), s)
+                else (RExc e (XId (2000 + n)), s)
+              | None => (ROk VOpaque, s)
+              end
+  | _ => (ROk VOpaque, s)
+  end.
+
+Definition mk_cx (bad : list (nat * exn)) (l : lspec) (other : cdesc jst2) (id : nat) : ctx jst2 :=
   Build_ctx (fun _ => other) (fun _ => l_rv l) (l_rules l) veq (fun a b => negb (veq a b))
             (kw_test_of Gen.Pedantic.pedantic_cfg (l_shape l))      (* the regenerated keyword-only test *)
-            raise_warning_prog id.
+            raise_warning_prog id (repr_of bad).
 
 (* head = outermost; the identity of a level is its height above the function, so it survives further decoration *)
-Fixpoint mk_levels (ls : list lspec) (other : cdesc jst2) (go : base jst2) : list (level jst2) :=
+Fixpoint mk_levels (bad : list (nat * exn)) (ls : list lspec) (other : cdesc jst2) (go : base jst2) : list (level jst2) :=
   match ls with
   | [] => []
-  | l :: r => (l_name l, mk_cx l other (List.length r), go) :: mk_levels r other go
+  | l :: r => (l_name l, mk_cx bad l other (List.length r), go) :: mk_levels bad r other go
   end.
 
 Fixpoint count_ids (ls : list lspec) : list nat :=
@@ -119,13 +134,21 @@ Fixpoint stack_attrs (l : list (level jst2)) (f : cdesc jst2) : bool :=
   end.
 
 (* decoration, innermost first; Some cls = the decoration itself raises *)
-Fixpoint decorate_all (ls : list lspec) : option exn :=
+(* does what a level decorates have a name: a wrapper always has (its own, or the copied one); overrides hands the
+   callable back *)
+Fixpoint named_top (ls : list lspec) (base_named : bool) : bool :=
+  match ls with
+  | [] => base_named
+  | l :: r => match l_name l with NOverrides => named_top r base_named | _ => true end
+  end.
+
+Fixpoint decorate_all (ls : list lspec) (base_named : bool) : option exn :=
   match ls with
   | [] => None
   | l :: ls' =>
-    match decorate_all ls' with
+    match decorate_all ls' base_named with
     | Some e => Some e
-    | None => match run_pre (d_pre (deco_of (l_name l))) true (fun _ => l_dir l) with
+    | None => match run_pre (d_pre (deco_of (l_name l))) true (named_top ls' base_named) (fun _ => l_dir l) with
               | PreRaise e => Some e
               | _ => None
               end
@@ -226,19 +249,19 @@ Fixpoint run_hist_spec (g : base jst2) (calls : list (args * kwargs)) (j : jst2)
           or [9; class] when the decoration raises
    then [-5] then the specification:
           [0 | 1 (no claim); iscoro] ++ per call res(3) ++ [-6] ++ per call res(3) ++ [-1] ++ journal   or [9; class]   *)
-Definition eval_case (ls : list lspec) (f : fspec) (other : fspec) (flt : faction) (calls : list (args * kwargs))
+Definition eval_case (bad : list (nat * exn)) (ls : list lspec) (f : fspec) (other : fspec) (flt : faction) (calls : list (args * kwargs))
            (ls2 : list lspec) (calls2 : list (args * kwargs)) : list Z :=
   let b (x : bool) : Z := if x then 1 else 0 in
   let all := ls2 ++ ls in
   let go := jbase2 COther other (0%nat, []) in
   let model :=
-    match decorate_all all with
+    match decorate_all all (f_named f) with
     | Some e => [9; enc_exn e]
     | None =>
       let cids1 := count_ids ls in
       let cids2 := count_ids all in
-      let lv1 := mk_levels ls (desc2 COther other cids1) go in
-      let lv2 := mk_levels all (desc2 COther other cids2) go in
+      let lv1 := mk_levels bad ls (desc2 COther other cids1) go in
+      let lv2 := mk_levels bad all (desc2 COther other cids2) go in
       let base1 := desc2 CFunc f cids1 in
       let base2 := desc2 CFunc f cids2 in
       let top1 := stack_callee lv1 base1 in
@@ -259,8 +282,8 @@ Definition eval_case (ls : list lspec) (f : fspec) (other : fspec) (flt : factio
       | Some _, Some coro =>
         let g := jbase2 CFunc f (0%nat, []) in
         let dummy := desc2 COther other [] in
-        let (rs1, j1) := run_hist_spec (stack_spec (mk_levels ls dummy go) g) calls [] in
-        let (rs2, j2) := run_hist_spec (stack_spec (mk_levels all dummy go) g) calls2 j1 in
+        let (rs1, j1) := run_hist_spec (stack_spec (mk_levels bad ls dummy go) g) calls [] in
+        let (rs2, j2) := run_hist_spec (stack_spec (mk_levels bad all dummy go) g) calls2 j1 in
         [0; b coro] ++ rs1 ++ [-6] ++ rs2 ++ [-1] ++ flat_map enc_jrec j2
       | _, _ => [1; 0]
       end
@@ -271,7 +294,7 @@ Definition eval_case (ls : list lspec) (f : fspec) (other : fspec) (flt : factio
 (* [does the access reach the function: 0/1] ++ res(3) ++ [-1] ++ journal ++ [-5] ++ the same for the undecorated class
    ++ [-5] ++ the same for the decorator applied to the function with the arguments routed as the undecorated class
    routes them (what the decorated class would do if for_all_methods kept the member kind) *)
-Definition eval_class (n : dname) (f : fspec) (m : member) (acc : access) (self cls0 sub : val) (a : args) (k : kwargs) : list Z :=
+Definition eval_class (bad : list (nat * exn)) (n : dname) (f : fspec) (m : member) (acc : access) (self cls0 sub : val) (a : args) (k : kwargs) : list Z :=
   let fn := desc2 CFunc f [] in
   let l := {| l_name := n; l_rv := VNone; l_rules := [];
               l_shape := {| ks_name := "f"; ks_first_self := false; ks_star_args := true; ks_staticmethod := false;
@@ -280,7 +303,7 @@ Definition eval_class (n : dname) (f : fspec) (m : member) (acc : access) (self 
   let s0 := Build_st [] (ws0 FaDefault) in
   let show (r : res * st jst2) := enc_res (fst r) ++ [-1] ++ flat_map enc_jrec (cs (snd r)) in
   (match deco_args forall_cfg m acc self cls0 sub a with
-   | Some _ => [1] ++ show (class_call forall_cfg n (mk_cx l fn 0) fn m acc self cls0 sub a k s0)
+   | Some _ => [1] ++ show (class_call forall_cfg n (mk_cx bad l fn 0) fn m acc self cls0 sub a k s0)
    | None => [0]
    end) ++ [-5] ++
   (match orig_args m acc self cls0 sub a with
@@ -288,7 +311,7 @@ Definition eval_class (n : dname) (f : fspec) (m : member) (acc : access) (self 
    | None => [0]
    end) ++ [-5] ++
   (match orig_args m acc self cls0 sub a with
-   | Some o => [1] ++ show (use_wrapped (deco_of n) (with_callee (mk_cx l fn 0) fn) o k s0)
+   | Some o => [1] ++ show (use_wrapped (deco_of n) (with_callee (mk_cx bad l fn 0) fn) o k s0)
    | None => [0]
    end).
 
